@@ -148,6 +148,6 @@ Orbit =
         return orbit2frame(name, self, **kwargs)
 
     def as_statevector(self):
-        new_dict = self._data.copy()
+        new_dict = self.copy()._data
         new_dict.pop("propagator")
-        return StateVector(self.base, **new_dict)
+        return StateVector(np.array(self), **new_dict)
